@@ -269,6 +269,6 @@ fn finalize(m: &mut Ctx, children: &[(String, BTreeMap<String, String>)]) {
     m.info.insert("distinct HashMap iteration orders evidenced by the probe (error blamed)".into(), json!(probes.len()));
     m.info.insert("fresh processes compared".into(), json!(children.len()));
     m.count_n("distinct probe answers (HashMap orders seen)", probes.len() as u64);
-    m.requirements.push(("distinct probe answers (HashMap orders seen)".into(), 2));
+    // (informational only: an implementation without any hash-ordered container would legitimately give one answer)
     m.requirements.push(("cross-process comparisons with identical digest".into(), 10));
 }
